@@ -90,6 +90,13 @@ type lockInfo struct {
 	entryMay map[*ssa.Function]lockSet
 	edges    []lockEdge
 	acquires []ssa.Instruction
+	// callee summaries: locks certainly / possibly still held when the function returns
+	// although its caller did not hold them, and locks it may release
+	mustLeak map[*ssa.Function]lockSet
+	mayLeak  map[*ssa.Function]lockSet
+	mayRel   map[*ssa.Function]lockSet
+	allIDs   lockSet
+	aug      map[ssa.Instruction]lockSet
 }
 
 // canonVar resolves a value to the variable it denotes across closures:
@@ -160,10 +167,23 @@ func (p *Prog) lockInfo() *lockInfo {
 	if p.locks != nil {
 		return p.locks
 	}
-	li := &lockInfo{p: p, must: map[ssa.Instruction]lockSet{}, may: map[ssa.Instruction]lockSet{}, entryMu: map[*ssa.Function]lockSet{}, entryMay: map[*ssa.Function]lockSet{}}
+	li := &lockInfo{p: p, must: map[ssa.Instruction]lockSet{}, may: map[ssa.Instruction]lockSet{}, entryMu: map[*ssa.Function]lockSet{}, entryMay: map[*ssa.Function]lockSet{},
+		mustLeak: map[*ssa.Function]lockSet{}, mayLeak: map[*ssa.Function]lockSet{}, mayRel: map[*ssa.Function]lockSet{}, allIDs: lockSet{}, aug: map[ssa.Instruction]lockSet{}}
 	for _, fn := range p.Funcs {
 		li.entryMu[fn] = lockSet{}
 		li.entryMay[fn] = lockSet{}
+		li.mustLeak[fn] = lockSet{}
+		li.mayLeak[fn] = lockSet{}
+	}
+	// locks a function may release (itself or through its synchronous callees, incl. deferred unlocks)
+	for _, fn := range p.Funcs {
+		rel := lockSet{}
+		p.coneInstrs(fn, func(in ssa.Instruction) {
+			for id := range p.releasedBy(in) {
+				rel[id] = true
+			}
+		})
+		li.mayRel[fn] = rel
 	}
 	// iterate: intraprocedural dataflow, then recompute entry sets from call sites
 	for round := 0; round < 6; round++ {
@@ -174,6 +194,13 @@ func (p *Prog) lockInfo() *lockInfo {
 			li.flow(fn, false)
 		}
 		changed := false
+		for _, fn := range p.Funcs {
+			mu, may := li.leaks(fn)
+			if !equalSets(mu, li.mustLeak[fn]) || !equalSets(may, li.mayLeak[fn]) {
+				changed = true
+			}
+			li.mustLeak[fn], li.mayLeak[fn] = mu, may
+		}
 		for _, fn := range p.Funcs {
 			mu, may := li.entryFromCallers(fn)
 			if !equalSets(mu, li.entryMu[fn]) || !equalSets(may, li.entryMay[fn]) {
@@ -197,6 +224,7 @@ func (p *Prog) lockInfo() *lockInfo {
 				return
 			}
 			li.acquires = append(li.acquires, in)
+			li.allIDs[id] = true
 			for h := range li.may[in] {
 				if h != id {
 					li.edges = append(li.edges, lockEdge{From: h, To: id, At: in})
@@ -327,6 +355,23 @@ func (li *lockInfo) flow(fn *ssa.Function, mustMode bool) {
 				} else if op == -1 {
 					delete(cur, id)
 				}
+				// effect of a synchronous tree callee (lock / unlock wrappers)
+				if g := p.syncCallee(ins); g != nil {
+					if mustMode {
+						for id := range li.mayRel[g] {
+							if !li.rebalanced(g, id) {
+								delete(cur, id)
+							}
+						}
+						for id := range li.mustLeak[g] {
+							cur[id] = true
+						}
+					} else {
+						for id := range li.mayLeak[g] {
+							cur[id] = true
+						}
+					}
+				}
 			}
 		}
 		out[b] = cur
@@ -339,11 +384,167 @@ func (li *lockInfo) flow(fn *ssa.Function, mustMode bool) {
 	}
 }
 
+// mustAt: locks certainly held just before `in`: the dataflow result, completed by a
+// path-sensitive interprocedural query for locks the dataflow could not establish
+// (e.g. a helper that returns with the lock held only when it returns non-nil).
 func (li *lockInfo) mustAt(in ssa.Instruction) lockSet {
-	if s, ok := li.must[in]; ok {
+	if s, ok := li.aug[in]; ok {
 		return s
 	}
-	return lockSet{}
+	s := lockSet{}
+	if m, ok := li.must[in]; ok {
+		s = m.clone()
+	}
+	for id := range li.allIDs {
+		if !s[id] && li.heldByPaths(in, id) {
+			s[id] = true
+		}
+	}
+	li.aug[in] = s
+	return s
+}
+
+// releasedBy: locks released by this instruction (an unlock call, or the registration of a
+// deferred unlock — direct or inside a deferred function literal).
+func (p *Prog) releasedBy(in ssa.Instruction) lockSet {
+	out := lockSet{}
+	ci, ok := in.(ssa.CallInstruction)
+	if !ok {
+		return out
+	}
+	if _, isGo := in.(*ssa.Go); isGo {
+		return out
+	}
+	if id, op := p.lockOp(ci); op == -1 {
+		out[id] = true
+	}
+	if df, isDefer := in.(*ssa.Defer); isDefer {
+		if cl := p.unbound(staticCallee(df)); cl != nil && p.allFns[cl] {
+			allInstrsRaw(cl, func(y ssa.Instruction) {
+				if cy, ok := y.(*ssa.Call); ok {
+					if id, op := p.lockOp(cy); op == -1 {
+						out[id] = true
+					}
+				}
+			})
+		}
+	}
+	return out
+}
+
+// deferReleases: locks whose unlock is deferred somewhere in fn (they are free once fn has returned).
+func (p *Prog) deferReleases(fn *ssa.Function) lockSet {
+	out := lockSet{}
+	allInstrsRaw(fn, func(in ssa.Instruction) {
+		if _, isDefer := in.(*ssa.Defer); isDefer {
+			for id := range p.releasedBy(in) {
+				out[id] = true
+			}
+		}
+	})
+	return out
+}
+
+// rebalanced: g's cone also acquires id, so a release of id inside it belongs to a critical
+// section of its own (or to a temporary release) and does not take the caller's lock away.
+func (li *lockInfo) rebalanced(g *ssa.Function, id lockID) bool {
+	acq := false
+	li.p.coneInstrs(g, func(in ssa.Instruction) {
+		if c, isCall := in.(*ssa.Call); isCall {
+			if i2, op := li.p.lockOp(c); op == 1 && i2 == id {
+				acq = true
+			}
+		}
+	})
+	return acq
+}
+
+// leaks: locks held at fn's returns that its callers did not hold.
+func (li *lockInfo) leaks(fn *ssa.Function) (must, may lockSet) {
+	may = lockSet{}
+	var mu lockSet
+	dr := li.p.deferReleases(fn)
+	allInstrsRaw(fn, func(in ssa.Instruction) {
+		if _, ok := in.(*ssa.Return); !ok {
+			return
+		}
+		m := li.must[in]
+		if m == nil {
+			m = lockSet{}
+		}
+		if mu == nil {
+			mu = m.clone()
+		} else {
+			mu = intersect(mu, m)
+		}
+		may = union(may, li.may[in])
+	})
+	must = lockSet{}
+	for id := range mu {
+		if !li.entryMay[fn][id] && !dr[id] {
+			must[id] = true
+		}
+	}
+	for id := range may {
+		if li.entryMay[fn][id] || dr[id] {
+			delete(may, id)
+		}
+	}
+	return must, may
+}
+
+// heldByPaths: path-sensitive interprocedural confirmation that lock id is held at `in`:
+// every path of the enclosing activity reaching `in` passes an acquire of id, and no
+// release of id reaches `in` without a new acquire.
+func (li *lockInfo) heldByPaths(in ssa.Instruction, id lockID) bool {
+	p := li.p
+	isAcq := func(x ssa.Instruction) bool {
+		c, ok := x.(*ssa.Call)
+		if !ok {
+			return false
+		}
+		i2, op := p.lockOp(c)
+		return op == 1 && i2 == id
+	}
+	if !mustPrecedeIPOpt(in, isAcq, nil, 0, false) {
+		return false
+	}
+	isIn := func(x ssa.Instruction) bool { return x == in }
+	held := true
+	for _, fn := range p.Funcs {
+		if !held {
+			break
+		}
+		dr := p.deferReleases(fn)[id]
+		allInstrsRaw(fn, func(x ssa.Instruction) {
+			if !held {
+				return
+			}
+			rel := false
+			if _, isCall := x.(*ssa.Call); isCall && p.releasedBy(x)[id] {
+				rel = true
+			}
+			if _, isRet := x.(*ssa.Return); isRet && dr {
+				rel = true
+			}
+			if !rel {
+				return
+			}
+			if _, isRet := x.(*ssa.Return); isRet {
+				// continue after the call sites of fn
+				for _, cs := range p.syncCallers(fn) {
+					if reachFromUp(cs, isIn, isAcq) != nil {
+						held = false
+					}
+				}
+				return
+			}
+			if reachFromUp(x, isIn, isAcq) != nil {
+				held = false
+			}
+		})
+	}
+	return held
 }
 
 // cycles in the lock-order graph (may-hold edges).
@@ -463,6 +664,14 @@ func (c *Ctx) lockLeakRule(rule string) {
 			if ret == nil {
 				c.ok(rule, construct, c.ipos(call), "released on every path to a return")
 				return
+			}
+			// a helper may hand the held lock to its callers (e.g. lookup-and-lock): then every
+			// path of the enclosing activity must release it
+			if !p.activityRoot(fn) {
+				if ret = reachFromUp(call, isReturn, isRelease); ret == nil {
+					c.ok(rule, construct, c.ipos(call), "returned held to the callers, which release it on every path")
+					return
+				}
 			}
 			if mustPrecede(fn, isDeferRelease, call) {
 				c.ok(rule, construct, c.ipos(call), "re-acquired inside a region whose deferred unlock is already registered")
